@@ -33,12 +33,17 @@ impl crate::SyncHttpClient for ureq::Agent {
             );
         }
 
-        let response = if let Method::POST = *request.method() {
+        let response = match if let Method::POST = *request.method() {
             req.send_bytes(request.body())
         } else {
             req.call()
-        }
-        .map_err(Box::new)?;
+        } {
+            Ok(response) => response,
+            // `ureq` reports HTTP status codes >= 400 as `Error::Status`. These are still valid HTTP
+            // responses that the caller must see (e.g., OAuth2 error responses use status 400).
+            Err(ureq::Error::Status(_, response)) => response,
+            Err(err) => return Err(Box::new(err).into()),
+        };
 
         let mut builder = http::Response::builder()
             .status(StatusCode::from_u16(response.status()).map_err(http::Error::from)?);
